@@ -23,6 +23,8 @@ type Family struct {
 	// Background families are started first and run in parallel to the others (each family is a process of its
 	// own anyway); used for probes that mostly wait, such as the long-idle probe.
 	Background bool
+	// Env: extra environment of the family's process (e.g. GODEBUG=panicnil=1).
+	Env []string
 }
 
 // Main runs a TaskLane property driver. Every family runs in a CHILD process (the same binary,
@@ -100,6 +102,7 @@ func Main(id string, fams []Family) {
 		prefix := filepath.Join(cdir, "racelog")
 		cmd := exec.Command(os.Args[0], args...)
 		cmd.Env = append(os.Environ(), "TL_CHILD="+f.Name, "GORACE=halt_on_error=0 exitcode=66 log_path="+prefix)
+		cmd.Env = append(cmd.Env, f.Env...)
 		var errbuf bytes.Buffer
 		cmd.Stdout = os.Stdout
 		cmd.Stderr = io.MultiWriter(&tailWriter{buf: &errbuf, max: 1 << 16}, os.Stderr)
